@@ -296,7 +296,9 @@ def main(argv=None):
       monitor_violations=len(viol), searched_extra_cases=searched, broken=broken, **stats)
   if 'coqchk' in proof:
     coverage['coqchk'] = proof['coqchk']
-  C.write_evidence(pid, tier, seed, 'proof', coverage, list(getattr(mod, 'ASSUMPTIONS', [])),
+  if not proof['ok']:
+    coverage['explanation'] = 'the proof step did not succeed in this run (%s); counts below are from the correspondence/monitor part only' % (proof.get('broken'),)
+  C.write_evidence(pid, tier, seed, 'proof' if proof['ok'] else 'other', coverage, list(getattr(mod, 'ASSUMPTIONS', [])),
                    time.time() - t0, unlisted + (1 if (broken and exit_code) else 0))
   for l in out_lines:
     print(l)
